@@ -28,7 +28,7 @@ import (
 
 type Failure struct {
 	ID      string `json:"id"`
-	Kind    string `json:"kind"` // none | input | failpoint
+	Kind    string `json:"kind"`              // none | input | failpoint
 	Profile string `json:"profile,omitempty"` // text replacing the base profile
 	Data    string `json:"data,omitempty"`    // text replacing the base data
 	HasData bool   `json:"has_data,omitempty"`
@@ -36,57 +36,58 @@ type Failure struct {
 }
 
 type Job struct {
-	Seed       uint64     `json:"seed"`
-	K          int        `json:"k"`
-	Shard      int        `json:"shard"`
-	NShard     int        `json:"nshard"`
-	Profile    string     `json:"profile"`
-	Data       string     `json:"data"`
-	Entries    []string   `json:"entries"`
-	Failures   []Failure  `json:"failures"`
-	Caps       []int      `json:"caps"`
-	Consumers  []string   `json:"consumers"`
-	EventNames []string   `json:"event_names"`
+	Seed       uint64      `json:"seed"`
+	K          int         `json:"k"`
+	Shard      int         `json:"shard"`
+	NShard     int         `json:"nshard"`
+	Profile    string      `json:"profile"`
+	Data       string      `json:"data"`
+	Entries    []string    `json:"entries"`
+	Failures   []Failure   `json:"failures"`
+	Caps       []int       `json:"caps"`
+	Consumers  []string    `json:"consumers"`
+	EventNames []string    `json:"event_names"`
 	Operations [][2]string `json:"operations"` // (constant name, value)
-	Out        string     `json:"out"`
-	Replay     *Cell      `json:"replay,omitempty"`
+	Out        string      `json:"out"`
+	Replay     *Cell       `json:"replay,omitempty"`
 }
 
 // Cell is one simulated run.
 type Cell struct {
-	Entry    string   `json:"entry"`
-	Failure  Failure  `json:"failure"`
-	Cap      int      `json:"cap"`
-	Consumer string   `json:"consumer"`
-	MCap     int      `json:"mcap"`
-	Seed     uint64   `json:"seed"`
-	Choices  []int    `json:"choices,omitempty"` // replay: index of the released goroutine at each step
-	Dts      []int64  `json:"dts,omitempty"`     // replay: clock advance (ns) at each step
+	Entry    string  `json:"entry"`
+	Failure  Failure `json:"failure"`
+	Cap      int     `json:"cap"`
+	Consumer string  `json:"consumer"`
+	MCap     int     `json:"mcap"`
+	Seed     uint64  `json:"seed"`
+	Choices  []int   `json:"choices,omitempty"` // replay: index of the released goroutine at each step
+	Dts      []int64 `json:"dts,omitempty"`     // replay: clock advance (ns) at each step
 }
 
 type Result struct {
-	Cell       Cell     `json:"cell"`
-	Events     []string `json:"events"`
-	Times      []int64  `json:"times"`
-	Closed     bool     `json:"closed"`
-	Returned   []string `json:"returned"` // per call: "ok" | "err" | "panic:<text>"
-	Milestones []MS     `json:"milestones,omitempty"`
-	MClosed    bool     `json:"mclosed"`
-	Steps      int      `json:"steps"`
-	SimNs      int64    `json:"sim_ns"`
-	Deadlock   string   `json:"deadlock,omitempty"`
-	Choices    []int    `json:"choices"`
-	Dts        []int64  `json:"dts"`
-	FailFired  bool     `json:"fail_fired"`
-	Probes     map[string]int `json:"probes,omitempty"`
-	OpenAfterCompile bool `json:"open_after_compile,omitempty"`
-	Harness    string   `json:"harness,omitempty"`
+	Cell             Cell           `json:"cell"`
+	Events           []string       `json:"events"`
+	Times            []int64        `json:"times"`
+	Closed           bool           `json:"closed"`
+	Returned         []string       `json:"returned"` // per call: "ok" | "err" | "panic:<text>"
+	Milestones       []MS           `json:"milestones,omitempty"`
+	MClosed          bool           `json:"mclosed"`
+	Steps            int            `json:"steps"`
+	SimNs            int64          `json:"sim_ns"`
+	Deadlock         string         `json:"deadlock,omitempty"`
+	Choices          []int          `json:"choices"`
+	Dts              []int64        `json:"dts"`
+	FailFired        bool           `json:"fail_fired"`
+	Probes           map[string]int `json:"probes,omitempty"`
+	OpenAfterCompile bool           `json:"open_after_compile,omitempty"`
+	Harness          string         `json:"harness,omitempty"`
+	Trace            []string       `json:"trace,omitempty"`
 }
 
 type MS struct {
-	Op  string `json:"op"`
-	Dur int64  `json:"dur"`
-	StartNs int64 `json:"start"`
+	Op      string `json:"op"`
+	Dur     int64  `json:"dur"`
+	StartNs int64  `json:"start"`
 }
 
 type parked struct {
@@ -469,6 +470,9 @@ func bubble(job *Job, cell Cell, res *Result) {
 		s.mu.Unlock()
 		res.Choices = append(res.Choices, pick)
 		res.Dts = append(res.Dts, dt)
+		if os.Getenv("SIM_BUBBLE_TRACE") != "" {
+			res.Trace = append(res.Trace, fmt.Sprintf("t=%d n=%d release %s/%s len(ch)=%d", time.Since(t0).Nanoseconds(), n, p.site, p.kind, len(ch)))
+		}
 		res.Steps++
 		close(p.ch)
 	}
